@@ -393,16 +393,21 @@ def r5_bridges(ctx, repo):
         a = new[0].value.args
         if not (a and vec in {n_.id for n_ in ast.walk(a[0]) if isinstance(n_, ast.Name)}):
             problems.append("the individual is not built from the queried vector")
-        rec = [i for i, s in enumerate(body) if any((access_path(c.func) or "").endswith(".problem.individuals.append") and c.args and access_path(c.args[0]) == iv for c in calls_in(s))]
-        evs = [i for i, s in enumerate(body) for c in calls_in(s) if (access_path(c.func) or "").endswith(".evaluate") and "job" in (access_path(c.func) or "")]
-        if evs and not any((access_path(c.func) or "") == selfn + ".job.evaluate" and c.args and access_path(c.args[0]) == iv for s in body for c in calls_in(s)):
+        TS = Terms(fn)
+
+        def fpath(c, s):
+            # the called path with local aliases (problem = self.algorithm.problem) looked through
+            return access_path(TS.expand(c.func, at=s)) or ""
+        rec = [i for i, s in enumerate(body) if any(fpath(c, s).endswith(".problem.individuals.append") and c.args and access_path(c.args[0]) == iv for c in calls_in(s))]
+        evs = [i for i, s in enumerate(body) for c in calls_in(s) if fpath(c, s).endswith(".evaluate") and "job" in fpath(c, s)]
+        if evs and not any(fpath(c, s) == selfn + ".job.evaluate" and c.args and access_path(c.args[0]) == iv for s in body for c in calls_in(s)):
             problems.append("the evaluated object is not the recorded individual")
         rets = [s for s in body if isinstance(s, ast.Return)]
         if len(rec) != 1:
             problems.append("the queried point is recorded %d times in problem.individuals" % len(rec))
         if len(evs) != 1:
             problems.append("the queried point is evaluated %d times" % len(evs))
-        if not rets or text(rets[-1].value) != iv + ".costs_signed[0]":
+        if not rets or text(TS.expand(rets[-1].value, at=rets[-1], skip=(iv,))) != iv + ".costs_signed[0]":
             problems.append("the optimiser receives %s instead of the signed cost costs_signed[0]" % (text(rets[-1].value) if rets else "nothing"))
         elif evs and body.index(rets[-1]) < evs[0]:
             problems.append("returns before evaluating")
